@@ -4,7 +4,7 @@
    standard parser sees it plus the bytes that followed it (digest; the bytes
    themselves for small responses). *)
 From Coq Require Import List NArith Bool Arith.
-From GN Require Import Model.Http.
+From GN Require Import Model.Http Model.HttpHead.
 Import ListNotations.
 Open Scope N_scope.
 
@@ -17,7 +17,8 @@ Definition digest (l : bytes) : N * N * N := let '(s1, s2) := digest_aux l 1 0 i
 
 Record hwrite := { hw_start : N; hw_len : nat; hw_flush : bool }.
 Record hreq := { hr_id : nat; hr_close : bool; hr_body_start : N; hr_body_len : nat; hr_read : option nat;
-                 hr_mode : rmode; hr_status : option N; hr_writes : list hwrite }.
+                 hr_mode : rmode; hr_status : option N; hr_writes : list hwrite;
+                 hr_xresp : option bytes }.              (* value of the X-Resp header the handler sets *)
 Definition prog_of (r : hreq) : list haction :=
   match hr_status r with Some c => [AWriteHeader c] | None => [] end ++
   flat_map (fun w => AWrite (gen26 (hw_len w) 65 (hw_start w)) :: (if hw_flush w then [AFlush] else [])) (hr_writes r).
@@ -27,7 +28,8 @@ Definition request_of (r : hreq) : request :=
 
 Record oresp := { or_status : N; or_mode : rmode; or_len : N;          (* the head as parsed *)
                   or_wire : N * N * N;                                  (* digest of the bytes between this head and the next *)
-                  or_bytes : option bytes }.                            (* those bytes, when few *)
+                  or_bytes : option bytes;                              (* those bytes, when few *)
+                  or_head : option bytes }.                             (* the head's own bytes (status line .. blank line) *)
 Record hobs := { ho_seen : list (nat * (N * N * N)); ho_resps : list oresp; ho_closed_at_end : bool; ho_garbage : bool }.
 Record hcase := { hc_id : nat; hc_reqs : list hreq; hc_obs : hobs }.
 
@@ -62,10 +64,40 @@ Definition obs_resp_ok (r : hreq) (o : oresp) : bool :=
                 | None => false
                 end
    end).
+(* the head, read back by the byte-level parser of Model/HttpHead.v: the handler's status, its headers, the
+   server header, and the framing header that matches the mode *)
+Definition bytes_eqb (a b : bytes) : bool := list_eqb N.eqb a b.
+Definition has_header (hs : list (bytes * bytes)) (k v : bytes) : bool :=
+  existsb (fun kv => andb (bytes_eqb (fst kv) k) (bytes_eqb (snd kv) v)) hs.
+Definition k_server : bytes := [83; 101; 114; 118; 101; 114].                                   (* "Server" *)
+Definition v_server : bytes := [103; 111; 45; 110; 101; 116; 116; 121].                         (* "go-netty" *)
+Definition k_xresp : bytes := [88; 45; 82; 101; 115; 112].                                      (* "X-Resp" *)
+Definition k_clen : bytes := [67; 111; 110; 116; 101; 110; 116; 45; 76; 101; 110; 103; 116; 104].   (* "Content-Length" *)
+Definition k_te : bytes := [84; 114; 97; 110; 115; 102; 101; 114; 45; 69; 110; 99; 111; 100; 105; 110; 103]. (* "Transfer-Encoding" *)
+Definition v_chunked : bytes := [99; 104; 117; 110; 107; 101; 100].                              (* "chunked" *)
+Definition obs_head_ok (r : hreq) (o : oresp) : bool :=
+  match or_head o with
+  | None => true
+  | Some hb =>
+      match parse_head hb with
+      | Some (_, _, code, hs, rest) =>
+          andb (match rest with [] => true | _ => false end)
+          (andb (code =? match hr_status r with Some c => c | None => 200 end)
+          (andb (has_header hs k_server v_server)
+          (andb (match hr_xresp r with Some v => has_header hs k_xresp v | None => true end)
+                (match hr_mode r with
+                 | MLen => has_header hs k_clen (to_dec (N.of_nat (length (concat (body_of_prog (prog_of r))))))
+                 | MChunked => has_header hs k_te v_chunked
+                 | MNone => negb (orb (existsb (fun kv => bytes_eqb (fst kv) k_clen) hs) (existsb (fun kv => bytes_eqb (fst kv) k_te) hs))
+                 end))))
+      | None => false
+      end
+  end.
+
 Fixpoint obs_resps_ok (rs : list hreq) (os : list oresp) : bool :=
   match rs, os with
   | _, [] => true
-  | r :: rs', o :: os' => andb (obs_resp_ok r o) (obs_resps_ok rs' os')
+  | r :: rs', o :: os' => andb (andb (obs_resp_ok r o) (obs_head_ok r o)) (obs_resps_ok rs' os')
   | [], _ :: _ => false
   end.
 Fixpoint seen_in_order (rs : list hreq) (seen : list (nat * (N * N * N))) : bool :=
